@@ -201,11 +201,13 @@ PREDICATES = {
     "tv": [
         # for convnext / swint the encoder's real total stride is 8*stem_patch_stride
         ("head_stride=max_stride", lambda c: max(head_strides(c)) >= encoder_stride(c)),
-        ("output_stride>stem_patch_stride", lambda c: min(head_strides(c)) > c["backbone_config"]["stem_patch_stride"]),
         (
             "size-not-multiple-of-8x-stem_patch_stride",
             lambda c: any(h % encoder_stride(c) or w % encoder_stride(c) for h, w in c["calls"]),
         ),
+        # repaired in /repo (562a561): kept LAST so that a failing configuration that also matches an open class is
+        # attributed to that class; a failure here is a plain violation (its known_findings entry is 'fixed')
+        ("output_stride>stem_patch_stride", lambda c: min(head_strides(c)) > c["backbone_config"]["stem_patch_stride"]),
     ],
 }
 
